@@ -318,6 +318,15 @@ fn literal_texts() -> Vec<String> {
             }
         }
     }
+    // ratios whose parts sit at the 32- and 64-bit limits, with every sign placement
+    for n in ["1", "-1", "2147483647", "-2147483648", "2147483648", "4294967296", "9223372036854775807", "-9223372036854775808", "0"] {
+        for d in ["1", "-1", "+1", "2", "-2", "2147483647", "-2147483647", "-2147483648", "2147483648", "8589934592", "-9223372036854775808", "0", "-0"] {
+            for p in ["", "#d", "#x", "#e", "#i"] {
+                base.push(format!("{}{}/{}", p, n, d));
+            }
+            base.push(format!("(string->number \"{}/{}\")", n, d));
+        }
+    }
     let mut out = vec![];
     for b in base {
         out.push(format!("(list {} 1)", b));
@@ -739,9 +748,55 @@ pub fn run(ctx: &Ctx) -> i32 {
             detail: json!({"session": [text], "observed": format!("{:?}", r)}),
         });
     }
+    // (d) macro uses whose expansion never finishes: the library may report an error (or keep expanding), it must not
+    // take the process down; isolated like (c)
+    let bombs: Vec<String> = {
+        let defs = [
+            ("(define-syntax forever (syntax-rules () ((_) (forever))))", "(forever)"),
+            ("(define-syntax grow (syntax-rules () ((_ x) (list (grow (x))))))", "(grow a)"),
+            ("(define-syntax two (syntax-rules () ((_ x) (begin (two x) (two x)))))", "(two a)"),
+            ("(define-syntax m1 (syntax-rules () ((_) (m2)))) (define-syntax m2 (syntax-rules () ((_) (m1))))", "(m1)"),
+            ("(define-syntax wide (syntax-rules () ((_ x ...) (wide x ... x ...))))", "(wide a)"),
+            ("(define-syntax qq (syntax-rules () ((_) `(x ,(qq)))))", "(qq)"),
+            ("(define-syntax vv (syntax-rules () ((_) (vector 1 (let ((t (vv))) t)))))", "(vv)"),
+        ];
+        let places = ["•", "(list 1 •)", "(lambda () •)", "(define (f) (if #t • 2))", "`(a ,• b)", "(let ((v •)) v)"];
+        let mut v = vec![];
+        for (d, u) in defs {
+            for p in places {
+                v.push(format!("{} {} (+ 1 2)", d, p.replace('•', u)));
+            }
+        }
+        v
+    };
+    let res4 = run_isolated("c06-cyclic", &bombs, Duration::from_secs(8), 2, n_threads(), 10_000);
+    for (i, r) in res4.iter().enumerate() {
+        acc.evals += 1;
+        let observed = match r {
+            Iso::Done(s) if s.starts_with("ok:") => {
+                acc.nontrivial += 1;
+                acc.outcome("expansion-bomb-ok");
+                continue;
+            }
+            Iso::Hang => {
+                // still expanding after 8 s: not a terminating program, nothing is claimed
+                acc.outcome("expansion-bomb-still-expanding");
+                continue;
+            }
+            Iso::Done(s) if s.starts_with("P:") => "panic",
+            Iso::Done(_) | Iso::Abort(_) => "abort",
+        };
+        acc.outcome(&format!("expansion-bomb-{}", observed));
+        acc.violation(Violation {
+            key: format!("expansion:{}", bombs[i]),
+            class: Some("non-terminating-macro-expansion".into()),
+            observed: observed.into(),
+            detail: json!({"session": [bombs[i]], "observed": format!("{:?}", r)}),
+        });
+    }
     rep.exhaustive = !truncated;
     rep.rule = format!(
-        "(a) every concatenation of <= {} lexemes over {:?} ({} texts), plus {} literal-family texts (character / string-escape / radix prefixes x 27 hex payloads around the surrogate range, U+10FFFF, 2^32 and 2^64 x 6 terminators; 16 character names; 8 numeric prefixes x 9 mantissas x 12 exponents up to e5000; each bare, in a list, in a dotted pair and inside a string), plus {} malformed programs ({} well-formed seed forms covering every special form, each with one sub-datum at a time replaced by each of {} junk data or removed; at top level, in a procedure body, in a defined procedure and next to an internal definition), through lex::scan, parse::parse_text, Vm::eval_text (datum by datum), prepare_eval + run_count(3), and ReplHighlighter::highlight / highlight_check at every cursor; (b) every global procedure of Vm::global_symbols() (so a new builtin is picked up automatically) at every arity 0..{} with arguments from a {}-value boundary palette (thorough: arity 3 from every second palette value) (empty / one-element / shared / improper containers; 0, -1, i32 and i64 extremes +-1, 2^64, 2^200, rationals at the 32-bit limits, +-0.0, +-inf, NaN, 1e308; #\\nul, non-ASCII characters and strings; procedures, a continuation, the unspecified value, procedures and continuations smuggled into data, nesting 60, a 1000-element list) and at arities up to {} from one value per kind = {} calls, in isolated workers (address-space cap, watchdog); allocation sizes above 10^6 are excluded as the property states; (c) {} cyclic structures x {} uses (list? length equal? display write, and as the value of an evaluation). Oracle: outcome is a value or an error, the same call as the middle operand of (list 'left-operand <call> 'right-operand) leaves its neighbours in place, the error (and value) can be rendered as text, and the same VM then evaluates (+ 1 2) to 3. Non-trivial = a case that satisfied the oracle.",
+        "(a) every concatenation of <= {} lexemes over {:?} ({} texts), plus {} literal-family texts (character / string-escape / radix prefixes x 27 hex payloads around the surrogate range, U+10FFFF, 2^32 and 2^64 x 6 terminators; 16 character names; 8 numeric prefixes x 9 mantissas x 12 exponents up to e5000; ratios of 9 x 13 parts at the 32- and 64-bit limits with every sign placement, as literals under 5 prefixes and through string->number; each bare, in a list, in a dotted pair and inside a string), plus {} malformed programs ({} well-formed seed forms covering every special form, each with one sub-datum at a time replaced by each of {} junk data or removed; at top level, in a procedure body, in a defined procedure and next to an internal definition), through lex::scan, parse::parse_text, Vm::eval_text (datum by datum), prepare_eval + run_count(3), and ReplHighlighter::highlight / highlight_check at every cursor; (b) every global procedure of Vm::global_symbols() (so a new builtin is picked up automatically) at every arity 0..{} with arguments from a {}-value boundary palette (thorough: arity 3 from every second palette value) (empty / one-element / shared / improper containers; 0, -1, i32 and i64 extremes +-1, 2^64, 2^200, rationals at the 32-bit limits, +-0.0, +-inf, NaN, 1e308; #\\nul, non-ASCII characters and strings; procedures, a continuation, the unspecified value, procedures and continuations smuggled into data, nesting 60, a 1000-element list) and at arities up to {} from one value per kind = {} calls, in isolated workers (address-space cap, watchdog); allocation sizes above 10^6 are excluded as the property states; (c) {} cyclic structures x {} uses (list? length equal? display write, and as the value of an evaluation); (d) 42 programs whose macro expansion never finishes (self-, mutually and exponentially recursive transformers in six positions): an error or continued expansion is accepted, an abort or panic is not. Oracle: outcome is a value or an error, the same call as the middle operand of (list 'left-operand <call> 'right-operand) leaves its neighbours in place, the error (and value) can be rendered as text, and the same VM then evaluates (+ 1 2) to 3. Non-trivial = a case that satisfied the oracle.",
         nlex, LEXEMES, n_texts, lits.len(), mal.len(), SEEDS.len(), JUNK.len(), ctx.tier.pick(2, 3), BOUNDARY.len(), ctx.tier.pick(3, 5), nb, CYCLIC.len(), CYCLIC_USES.len()
     );
     rep.extra("builtin_calls", json!(nb));
